@@ -100,16 +100,24 @@ class C10(P.Property):
         knobs = plan["knobs"]
         w = self.world_for(knobs["scheme"])
         run = fe.Run(plan["seed"], knobs)
-        touched = {"config.json": set(), "edb": set()}
+        accepted = {}  # file name -> bytes on disk right after the request that created it was acknowledged
         msgno = [0]
 
-        def on_disk(rec):
-            if not rec["proc"].startswith("server"):
-                return
-            base = rec["path"].rsplit("/", 1)[-1]
-            if base in touched and rec["kind"] != "write" and rec["path"].startswith(SID):
-                touched[base].add(msgno[0])
-        run.seam.on_event = on_disk
+        def check_write_once(si):
+            """an accepted configuration / index is never replaced: the stored bytes stay what they were when accepted"""
+            for name in ("config.json", "edb"):
+                try:
+                    with open(run.sse_path(SID, name), "rb") as f:
+                        cur = f.read()
+                except FileNotFoundError:
+                    cur = None
+                if name in accepted and cur != accepted[name]:
+                    res.violations.append(V("C10.write_once", "REWRITE", f"after step {si} the stored {name} differs from the one that was accepted "
+                                                                           f"({len(accepted[name])} -> {len(cur) if cur is not None else 'missing'} bytes)", site=name))
+                    return False
+            return True
+        run.check_write_once = check_write_once
+        run.accepted_files = accepted
         out = dict(obs=[], cover={}, probes={})
         try:
             with world.Watchdog(60):
@@ -117,9 +125,8 @@ class C10(P.Property):
                     run.sim.run(self._scenario(run, plan, w, out, res.violations, msgno))
                 except (core.SimLimit, core.SimDeadlock) as e:
                     res.violations.append(V("C10", "HANG", f"run did not finish: {e}"))
-            for name, ids in touched.items():
-                if len(ids) > 1:
-                    res.violations.append(V("C10.write_once", "REWRITE", f"{name} was created/replaced while handling {len(ids)} different requests", site=name))
+            if not res.violations:
+                check_write_once("last")
             res.digest = run.sim.digest()
             res.sim_seconds = run.sim.loop._vt
             res.events = run.sim.loop.steps
@@ -213,12 +220,16 @@ class C10(P.Property):
                 replied = (len(a.acks), len(a.refused), len(a.results)) != (nack, nref, nres)
                 out["obs"].append((st, "foreign", "reply" if replied else "closed" if a.closed_seen else "ignored"))
                 out["cover"][f"s{st}:foreign:{'reply' if replied else 'closed' if a.closed_seen else 'ignored'}"] = 1
-                if replied or a.closed_seen:
-                    viol.append(V("C10.foreign", "REFUSAL_MISMATCH", f"step {si}: a message carrying a foreign sid was {'answered' if replied else 'answered by closing the connection'}"))
+                if replied:
+                    viol.append(V("C10.foreign", "REFUSAL_MISMATCH", f"step {si}: a message carrying a foreign sid was answered"))
                     return
-                probes["foreign_sid_ignored"] = 1
-                continue
-            if do == "unknown":
+                if not a.closed_seen:
+                    probes["foreign_sid_ignored"] = 1
+                    continue
+                # (closing the connection is a refusal too; the stored state must be untouched, which the reconnect below checks)
+            if do == "foreign":
+                out["obs"].append((st, "foreign", "closed"))
+            elif do == "unknown":
                 await a.send("bogus-type", b"x")
                 # the server may answer by closing the connection; give the close handshake time to arrive
                 await a.wait_change(lambda: (len(a.acks), len(a.results)) != (nack, nres), 15.0)
@@ -254,11 +265,15 @@ class C10(P.Property):
                             viol.append(V("C10.step", "REFUSAL_MISMATCH", f"step {si}: config answered by {a.acks[-1]}"))
                             return
                         st, cfg = 1, step["c"]
+                        with open(run.sse_path(SID, "config.json"), "rb") as f:
+                            run.accepted_files["config.json"] = f.read()
                     elif do == "upload":
                         if a.acks[-1] != "upload_edb":
                             viol.append(V("C10.step", "REFUSAL_MISMATCH", f"step {si}: upload answered by {a.acks[-1]}"))
                             return
                         st, edb = 2, step["e"]
+                        with open(run.sse_path(SID, "edb"), "rb") as f:
+                            run.accepted_files["edb"] = f.read()
                     else:
                         if len(a.results) <= nres:
                             viol.append(V("C10.step", "REFUSAL_MISMATCH", f"step {si}: search answered by an acknowledgement"))
@@ -286,6 +301,8 @@ class C10(P.Property):
                         probes["second_upload_refused"] = 1
                     elif do == "search":
                         probes["search_before_ready_refused"] = 1
+            if not run.check_write_once(si):
+                return
             if a.closed_seen:
                 probes["forced_reconnect"] = 1
                 out["reconnects"] += 1
